@@ -1244,11 +1244,25 @@ func (c *Ctx) checkClientDeliveryTopic(r *Report, rule string) {
 				return
 			}
 			delivers := false
-			allInstrs(g, func(j ssa.Instruction) {
-				if _, ok := j.(*ssa.Go); ok {
-					delivers = true
+			var hasGo func(h *ssa.Function, d int)
+			seenG := map[*ssa.Function]bool{}
+			hasGo = func(h *ssa.Function, d int) {
+				if seenG[h] || d > 2 || h.Blocks == nil {
+					return
 				}
-			})
+				seenG[h] = true
+				allInstrs(h, func(j ssa.Instruction) {
+					if _, ok := j.(*ssa.Go); ok {
+						delivers = true
+					}
+					if cj, ok := j.(ssa.CallInstruction); ok {
+						if h2 := staticCallee(cj.Common()); h2 != nil && fnPkgPath(h2) == pkClient {
+							hasGo(h2, d+1)
+						}
+					}
+				})
+			}
+			hasGo(g, 0)
 			if !delivers {
 				return
 			}
